@@ -15,6 +15,18 @@ def check{N}_{S}({ARGS}, free: int) -> bool:
     return H.property_holds([{RS}], [{QS}], free)
 
 
+def S_check{N}_{S}({ARGS}, free: int) -> bool:
+    """
+    pre: {RANGE}
+    pre: {ORDER}
+    pre: -{CAP} <= free < {CAP}
+    post: _
+    """
+    # search-mode twin (cut helpers without side conditions; proposes counterexamples only, discharges nothing)
+    H.LIMITS.search = True
+    return H.property_holds([{RS}], [{QS}], free)
+
+
 def reach{N}_{S}({ARGS}, free: int) -> bool:
     """
     pre: {RANGE}
